@@ -319,12 +319,15 @@ PROPS["C13"] = {
          "flags": {"quick": ["-timeout", "5000"], "thorough": ["-timeout", "20000"]},
          "must_reach": {"VH_C13_WorkAddSubCmp": ["end"], "VH_C13_ValidateHeader": ["accepted"], "VH_C13_HeavierAsymmetric": ["end"]},
          "tv_harnesses": ["VH_C13_WorkAddSubCmp"]},
+        {"pkg": "consensus", "harness": ["harness/c13/c13.go", "harness/common/cons_world.go", "harness/common/cons_support.go"], "run": "^VH_C13_RetargetNoDivZero$",
+         "params": {"quick": {"work_lift": 1, "int_mode": 1, "time_lift": 1}, "thorough": {"work_lift": 1, "int_mode": 1, "time_lift": 1}}, "flags": {"quick": ["-timeout", "5000"], "thorough": ["-timeout", "20000"]},
+         "must_reach": {"VH_C13_RetargetNoDivZero": ["end"]}},
     ],
     "tv_runs": {"quick": 2, "thorough": 6},
-    "bounds": {"quick": "Work.add/sub/Cmp/min/max: all 2^256 x 2^256 operands (real limb code vs independent carry-chain reference); ValidateHeader accepted <=> (parent ID, timestamp >= median, nonce factor, ID <= target) with 3 distinct previous timestamps and the median checked against its definition; 'sufficiently heavier' asymmetric", "thorough": "4 distinct timestamps"},
-    "outside": ["retargeting itself (adjustDifficultyV2 / FinalCut clamp, totality, monotone total work) and header-vs-block equivalence: harnesses exist (VH_C13_FinalCutClamp, V2Clamp, RetargetTotal, HeaderVsBlock) but z3 4.8.12 does not return within its time limit on the 256-bit multiply/divide chains, in bit-vector or integer rendering; not claimed",
+    "bounds": {"quick": "Work.add/sub/Cmp/min/max: all 2^256 x 2^256 operands (real limb code vs independent carry-chain reference); ValidateHeader accepted <=> (parent ID, timestamp >= median, nonce factor, ID <= target) with 3 distinct previous timestamps and the median checked against its definition; 'sufficiently heavier' asymmetric; FinalCut and v2 retargeting from a concrete proof-of-work state (difficulty 2^40, Oak work 2^50, height 600000, five timestamp drifts) for EVERY Oak time: no division by zero, no underflow, result nonzero and within the 0.4% clamp", "thorough": "4 distinct timestamps"},
+    "outside": ["retargeting from a SYMBOLIC proof-of-work state (adjustDifficultyV2 / FinalCut clamp, totality, monotone total work) and header-vs-block equivalence: harnesses exist (VH_C13_FinalCutClamp, V2Clamp, RetargetTotal, HeaderVsBlock) but z3 4.8.12 does not return within its time limit on the 256-bit multiply/divide chains, in bit-vector or integer rendering; not claimed",
                 "pre-v2 eras (big.Int target arithmetic, float64 clamp)", "invTarget is an uninterpreted function in ValidateHeader (the FinalCut target is 'the' inverse of the difficulty, not checked to be the floored inverse)"],
-    "stubs": ["invTarget: uninterpreted", "time.Time.Sub: (t-u)*1e9 under |t-u| < 2^33 s"],
+    "stubs": ["invTarget: uninterpreted", "time.Time.Sub: (t-u)*1e9 under |t-u| < 2^33 s", "RetargetNoDivZero: Work add/sub/Cmp/mul64/div64 lifted to 256-bit operations (constant x symbolic products exact, symbolic quotients uninterpreted with q <= w)"],
     "assumptions": COMMON_ASSUME + IDEAL_CRYPTO,
 }
 MANIFEST_TEXT["C13"] = {
